@@ -53,16 +53,17 @@ type dvSim struct {
 	faceGen map[[2]int]int
 	// advertisement fetch Interests the routers expressed themselves and the harness has not
 	// answered yet, per expressing router
-	mu       sync.Mutex
-	advFetch map[int][]simeng.Expressed
-	nFetch   int
-	nNoFetch int
-	holdPfx  bool
-	heldPfx  []func()
-	nExpire  int
-	nLateRib int
-	losePfx  int // number of upcoming prefix-table fetches to lose (answered with a timeout)
-	nLostPfx int
+	mu            sync.Mutex
+	advFetch      map[int][]simeng.Expressed
+	nFetch        int
+	nNoFetch      int
+	holdPfx       bool
+	heldPfx       []func()
+	nExpire       int
+	nLateRib      int
+	losePfx       int // number of upcoming prefix-table fetches to lose (answered with a timeout)
+	nLostPfx      int
+	nPfxDelivered int // prefix-table fetches answered with Data and handed to the router's callback
 	// lossy profile: advertisement fetches that are answered by a NACK / a timeout first (budgets)
 	lossRng   *rand.Rand
 	lossArmed bool // failures are injected from the second round of a phase on: the last fetches of a phase are the ones nothing repairs
@@ -225,6 +226,9 @@ func (s *dvSim) onExpress(from *dvNode, x simeng.Expressed) {
 		}
 		deliver := func() {
 			x.Callback(ndn.ExpressCallbackArgs{Result: ndn.InterestResultData, Data: d, RawData: enc.Wire{raw}, SigCovered: cov})
+			s.mu.Lock()
+			s.nPfxDelivered++
+			s.mu.Unlock()
 		}
 		s.mu.Lock()
 		if s.holdPfx { // a slow reply: produced now, delivered when the harness releases it
